@@ -155,7 +155,7 @@ func isNilConst(v ssa.Value) bool {
 }
 
 // pathEnv resolves φ-nodes along one explored path.
-type pathEnv map[*ssa.Phi]ssa.Value
+type pathEnv map[ssa.Value]ssa.Value
 
 func (e pathEnv) resolve(v ssa.Value) ssa.Value {
 	for i := 0; i < 20; i++ {
@@ -169,6 +169,17 @@ func (e pathEnv) resolve(v ssa.Value) ssa.Value {
 		case *ssa.ChangeInterface:
 			v = x.X
 			continue
+		case *ssa.UnOp:
+			// load of a named result spilled to memory (functions with a deferred closure): the value last stored on this path
+			if x.Op == token.MUL {
+				if a, ok := x.X.(*ssa.Alloc); ok {
+					if r, ok := e[a]; ok {
+						v = r
+						continue
+					}
+				}
+			}
+			return v
 		}
 		return v
 	}
@@ -344,6 +355,9 @@ func (a *errAnalyzer) analyse(s *errSite) errVerdict {
 				results = append(results, result{"free", x.Pos(), ""})
 				return
 			case *ssa.Store:
+				if a, ok := x.Addr.(*ssa.Alloc); ok {
+					env[a] = env.resolve(x.Val)
+				}
 				if vv := env.resolve(x.Val); (vv == s.errVal || alias[vv]) && state != 2 {
 					if _, isFree := x.Addr.(*ssa.FreeVar); isFree {
 						storedTo = x.Addr
